@@ -1,6 +1,10 @@
-(* Entry point of the extracted oracle: one wire line in, one wire line out. *)
+(* Entry point of the extracted oracle: one wire line in, one wire line out.
+   First token selects the property runner: num (C05) or c01 ... c20. *)
 From Coq Require Import ZArith List String Bool.
-From Verif Require Import Base.Wire Run.RunC05.
+From Verif Require Import Base.Wire.
+From Verif Require Import Run.RunC01 Run.RunC02 Run.RunC03 Run.RunC04 Run.RunC05 Run.RunC06 Run.RunC07
+  Run.RunC08 Run.RunC09 Run.RunC10 Run.RunC11 Run.RunC12 Run.RunC13 Run.RunC14 Run.RunC15 Run.RunC16
+  Run.RunC17 Run.RunC18 Run.RunC19 Run.RunC20.
 Import ListNotations.
 
 Definition dispatch (vs : list V) : list V :=
@@ -8,6 +12,25 @@ Definition dispatch (vs : list V) : list V :=
   | o :: rest =>
     let op := opname o in
     if String.eqb op "num" then run_num rest
+    else if String.eqb op "c01" then run_c01 rest
+    else if String.eqb op "c02" then run_c02 rest
+    else if String.eqb op "c03" then run_c03 rest
+    else if String.eqb op "c04" then run_c04 rest
+    else if String.eqb op "c06" then run_c06 rest
+    else if String.eqb op "c07" then run_c07 rest
+    else if String.eqb op "c08" then run_c08 rest
+    else if String.eqb op "c09" then run_c09 rest
+    else if String.eqb op "c10" then run_c10 rest
+    else if String.eqb op "c11" then run_c11 rest
+    else if String.eqb op "c12" then run_c12 rest
+    else if String.eqb op "c13" then run_c13 rest
+    else if String.eqb op "c14" then run_c14 rest
+    else if String.eqb op "c15" then run_c15 rest
+    else if String.eqb op "c16" then run_c16 rest
+    else if String.eqb op "c17" then run_c17 rest
+    else if String.eqb op "c18" then run_c18 rest
+    else if String.eqb op "c19" then run_c19 rest
+    else if String.eqb op "c20" then run_c20 rest
     else [verr "unknown-op"]
   | [] => [verr "badline"]
   end.
